@@ -40,6 +40,10 @@ def check(run):
         run.guard("C06.via.C05.3.what-is-optimised", cfg, lambda: _C05.rule_what(b5, F, cfg))
         b7 = run.borrow("C07", why="tags_with_set rebuilds filters_tagged from the enabled set alone")
         run.guard("C06.via.C07.3.set-algebra", cfg, lambda: _C07.rule_set_algebra(b7, F, cfg))
+        run.guard("C06.via.C05.4.disjunction", cfg, lambda: _C05.rule_disjunction(b5, F, cfg))
+        from . import C01 as _C01
+        b1 = run.borrow("C01", why="incremental insertion must index a rule exactly like a batch build")
+        run.guard("C06.via.C01.1.token-source", cfg, lambda: _C01.rule_store(b1, F, cfg))
 
 
 def engine_types(F):
